@@ -17,7 +17,7 @@ ASSUMPTIONS = ["the reference grouping itself (equality of the returned table wi
 
 def run(F, rep):
     rep.engines.update(["E2-DT", "E2-BV", "E1"])
-    dt_filter.filter_tables(F, rep, "C05")
-    dt_filter.summarizer_tables(F, rep, "C05.6")
-    common.run_kmer_lemmas(F, rep, {"bucket"})
-    dt_seq.kmer_iter_tables(F, rep, "C05.8")
+    rep.run(dt_filter.filter_tables, F, rep, "C05")
+    rep.run(dt_filter.summarizer_tables, F, rep, "C05.6")
+    rep.run(common.run_kmer_lemmas, F, rep, {"bucket"})
+    rep.run(dt_seq.kmer_iter_tables, F, rep, "C05.8")
